@@ -20,6 +20,7 @@ func init() {
 			"D2 copy independence — for every Copy (5 stores, 2 sketches, statistics): everything reachable from the result was allocated during the call (deep origin analysis through slices of slices, maps and nested copies), except the index mapping, which is shared and is proven immutable (no store to a field of any mapping struct outside a freshly allocated object); every field of the struct is defined by the copy; the dynamic type of the result is the receiver's. "+
 			"D3 ChangeMapping: nothing reachable from the result originates in the receiver except through Copy()/the immutable mapping; the stores of the result are the caller-supplied ones. "+
 			"D5 no package-level state — no exported function or method of the module (the reflection plumbing of the protoc-generated message file excepted) writes, directly or through anything it calls, memory reachable from a package-level variable: a reused builder, a scratch buffer or a 'last result' cache would make one sketch's answers depend on other sketches' operations, on overlapping calls and on re-entrant writers. "+
+			"D6 detached snapshots — nothing reachable from the message returned by any ToProto (stores, both sketch variants, mappings) is memory of the receiver or of a package-level variable. "+
 			"NOT DECIDED: that sorting and compaction preserve the represented index→count map (value statement; the one trusted assumption of this check).",
 		"one obligation per (read-only operation × implementation), per Copy × (origin, each field, dynamic type), per mapping-field store; non-trivial = the write set / origin set had to be computed through at least one call",
 		true, runC14)
@@ -48,6 +49,7 @@ func runC14(c *Ctx) {
 	// reference lets later operations on the receiver alter the argument's answers)
 	c02ArgUntouched(c, a, "C14-D4")
 	c14NoPackageState(c, "C14-D5")
+	c14Detached(c, "C14-D6")
 }
 
 // checkNoObservableWrite: the observable write set of f rooted at parameter idx is empty.
@@ -735,4 +737,33 @@ func protocGenerated(p *Program, pos token.Pos) bool {
 		}
 	}
 	return false
+}
+
+// c14Detached (D6): a protobuf message handed out by ToProto is a snapshot — nothing reachable from it is memory of
+// the object it was taken from (a message that shares the store's bin array changes when the sketch changes, and
+// changing the message changes the sketch).
+func c14Detached(c *Ctx, rule string) {
+	n := 0
+	for _, f := range c.P.Funcs {
+		if !inModule(f) || f.Name() != "ToProto" || f.Signature.Recv() == nil || f.Synthetic != "" || len(f.Blocks) == 0 || protocGenerated(c.P, f.Pos()) {
+			continue
+		}
+		n++
+		var bad []string
+		for _, b := range f.Blocks {
+			for _, in := range b.Instrs {
+				ret, ok := in.(*ssa.Return)
+				if !ok || len(ret.Results) == 0 {
+					continue
+				}
+				for _, l := range c.Mod.DeepOriginsOf(f, ret.Results[0]).sorted() {
+					if locRoot(l) == "p0" || strings.HasPrefix(locRoot(l), "g:") {
+						bad = append(bad, l)
+					}
+				}
+			}
+		}
+		c.R.check(len(bad) == 0, rule, helperKey(f)+"/detached-snapshot", shortFn(f), c.fpos(f), "nothing reachable from the returned message is memory of the receiver", firstNonEmpty(strings.Join(uniqStrs(bad), ", "), "all fresh"))
+	}
+	c.R.floor(rule, "ToProto implementations", n, 7)
 }
